@@ -37,9 +37,10 @@ VARIABLES l,      \* position in Trace
           bad,    \* protocol-rule breaches detected at the step where they occur: {<<clause, sid>>}
           now,    \* virtual time in ms
           q,      \* the last quiescent-point record; q.at = TRUE only right after a "q" event
-          viol    \* {<<trace index, formula name, position>>}
+          viol,   \* {<<trace index, formula name, position>>}
+          meta    \* the scenario's meta record (expectations stated by the generator)
 
-vars == <<l, tidx, cfg, wq, ws, rp, tun, bad, now, q, viol>>
+vars == <<l, tidx, cfg, wq, ws, rp, tun, bad, now, q, viol, meta>>
 
 Ev == Trace[l]
 
@@ -95,13 +96,14 @@ RP0 == [ shape |-> "", sid |-> 0, cstart |-> FALSE, started |-> FALSE, startFail
          hHdr |-> MD0, hTrl |-> MD0, hRet |-> NoClose, hRetStarted |-> FALSE,
          hResp |-> -1,
          secondSendC |-> "none", secondSendS |-> "none",
-         hCtxErrFabricated |-> FALSE ]
+         hdrBad |-> FALSE, hdrLate |-> FALSE, failFastBad |-> FALSE, afterDone |-> FALSE ]
 
 Tun0 == [ opened |-> FALSE, started |-> FALSE, startFail |-> FALSE, chdone |-> FALSE, chErr |-> "none",
           serveRet |-> FALSE, serveCls |-> "none", causes |-> {},
           lastNew |-> 0, settingsSent |-> 0, settingsDeliv |-> FALSE, winC2S |-> W,
           shutdown |-> FALSE, gstopRet |-> FALSE, stopCalled |-> FALSE, stopRet |-> FALSE,
-          baseG |-> -1, fc |-> TRUE ]
+          baseG |-> -1, fc |-> TRUE, teardown |-> FALSE, marshalFail |-> FALSE,
+          firstCause |-> "", lastBlocked |-> <<>>, doneAtTeardown |-> TRUE ]
 
 Q0 == [ at |-> FALSE, final |-> FALSE, blocked |-> <<>>, h |-> <<>>, parked |-> <<>>, ctab |-> -1, stab |-> 0,
         nsrv |-> 0, qc2s |-> 0, qs2c |-> 0, g |-> -1, chdone |-> FALSE ]
@@ -125,7 +127,7 @@ FCExpected == /\ ~cfg.cliNoFC /\ ~cfg.srvNoFC
 Init ==
   /\ l = 1 /\ tidx = -1 /\ cfg = Cfg0 /\ wq = [c2s |-> <<>>, s2c |-> <<>>]
   /\ ws = [x \in {} |-> WS0] /\ rp = [x \in {} |-> RP0] /\ tun = Tun0 /\ bad = {}
-  /\ now = 0 /\ q = Q0 /\ viol = {}
+  /\ now = 0 /\ q = Q0 /\ viol = {} /\ meta = [done |-> <<>>]
 
 ---------------------------------------------------------------------------
 (* The wire automaton: frames as they are SENT.                            *)
@@ -240,7 +242,7 @@ TWireSend ==
   /\ wq' = [wq EXCEPT ![Ev.dir] = Append(@, Ev)]
   /\ rp' = IF Ev.dir = "c2s" /\ Ev.kind = "new" /\ Ev.rpc # 0
             THEN SetRP(Ev.rpc, [ RPof(Ev.rpc) EXCEPT !.sid = Ev.sid ]) ELSE rp
-  /\ UNCHANGED <<tidx, cfg, now>>
+  /\ UNCHANGED <<tidx, cfg, now, meta>>
 
 ---------------------------------------------------------------------------
 (* Frames as they are DELIVERED to the receiving endpoint.                 *)
@@ -291,7 +293,7 @@ TWireRecv ==
                   /\ tun' = [tun EXCEPT !.settingsDeliv = TRUE, !.winC2S = f.win]
              ELSE /\ ws' = SetWS(s, DelivS2C(f, w))
                   /\ tun' = tun
-  /\ UNCHANGED <<tidx, cfg, wq, rp, bad, now>>
+  /\ UNCHANGED <<tidx, cfg, wq, rp, bad, now, meta>>
 
 ---------------------------------------------------------------------------
 (* Application calls.                                                      *)
@@ -322,7 +324,8 @@ TOpStart ==
           IF e.end = "c" THEN
             CASE e.op \in {"new", "invoke"} ->
                    LET r1 == [ r EXCEPT !.shape = e.shape, !.cstart = TRUE, !.t0 = now, !.timeout = e.timeout,
-                                        !.method = e.method, !.mdSent = e.md, !.opts = e.opts ]
+                                        !.method = e.method, !.mdSent = e.md, !.opts = e.opts,
+                                        !.afterDone = tun.chdone ]
                    IN IF e.op = "invoke"
                       THEN [ r1 EXCEPT !.sentC = Append(@, <<e.rpc, "c", e.idx, e.size>>), !.recvC = @ + 2 ]
                       ELSE r1
@@ -344,7 +347,7 @@ TOpStart ==
                    IN IF r.shape = "unary" /\ e.code = 0 /\ e.n >= 0
                       THEN [ r1 EXCEPT !.hResp = e.size ] ELSE r1
               [] OTHER -> r)
-  /\ UNCHANGED <<tidx, cfg, wq, ws, tun, bad, now>>
+  /\ UNCHANGED <<tidx, cfg, wq, ws, tun, bad, now, meta>>
 
 TOpRet ==
   /\ Ev.ev = "op.ret"
@@ -353,14 +356,15 @@ TOpRet ==
      IN rp' = SetRP(e.rpc,
           IF e.end = "c" THEN
             CASE e.op = "new" ->
-                   IF e.cls = "ok" THEN [ r EXCEPT !.started = TRUE ] ELSE [ r EXCEPT !.startFail = TRUE ]
+                   IF e.cls = "ok" THEN [ r EXCEPT !.started = TRUE, !.failFastBad = r.afterDone ]
+                   ELSE [ r EXCEPT !.startFail = TRUE ]
               [] e.op = "invoke" ->
                    LET r1 == IF e.cls = "ok"
                              THEN [ r EXCEPT !.gotC = Append(@, IdOf(e.m)), !.intactC = @ /\ e.m.intact, !.okC = @ + 1 ]
                              ELSE r
                        \* an OK Invoke is the terminal result EOF after exactly one message
                        r2 == Terminal(r1, IF e.cls = "ok" THEN [e EXCEPT !.cls = "eof"] ELSE e)
-                   IN [ r2 EXCEPT !.trlSeen = "trlT" \in DOMAIN e, !.hasTrlT = "trlT" \in DOMAIN e,
+                   IN [ r2 EXCEPT !.failFastBad = r.afterDone /\ e.cls = "ok", !.trlSeen = "trlT" \in DOMAIN e, !.hasTrlT = "trlT" \in DOMAIN e,
                                   !.trlT = IF "trlT" \in DOMAIN e THEN e.trlT ELSE MD0,
                                   !.trl = IF "trlT" \in DOMAIN e THEN e.trlT ELSE MD0,
                                   !.hasHdrT = "hdrT" \in DOMAIN e,
@@ -372,11 +376,15 @@ TOpRet ==
                    ELSE [ r EXCEPT !.errC = @ + 1, !.secondSendC = IF second /\ @ = "none" THEN "refused" ELSE @ ]
               [] e.op = "recv" ->
                    IF e.cls = "ok"
-                   THEN [ r EXCEPT !.gotC = Append(@, IdOf(e.m)), !.intactC = @ /\ e.m.intact ]
+                   THEN [ r EXCEPT !.gotC = Append(@, IdOf(e.m)), !.intactC = @ /\ e.m.intact,
+                                   !.hdrLate = @ \/ (RealSrv /\ r.sid \in DOMAIN ws /\ ~ws[r.sid].hdrDeliv) ]
                    ELSE WithTrailers(Terminal(r, e), e)
               [] e.op = "header" ->
                    IF e.cls = "ok"
                    THEN [ r EXCEPT !.hdrSeen = TRUE, !.hdr = IF r.hdrSeen THEN @ ELSE e.md,
+                                   !.hdrBad = @ \/ (r.sid \in DOMAIN ws /\
+                                                 ~ \/ ws[r.sid].hdrDeliv /\ MDEq(e.md, ws[r.sid].sHdrMD)
+                                                   \/ ~ws[r.sid].hdrDeliv /\ MDEq(e.md, MD0)),
                                    !.hdrMismatch = @ \/ (r.hdrSeen /\ ~MDEq(r.hdr, e.md)),
                                    !.hasHdrT = "hdrT" \in DOMAIN e,
                                    !.hdrT = IF "hdrT" \in DOMAIN e THEN e.hdrT ELSE MD0,
@@ -397,17 +405,19 @@ TOpRet ==
                    THEN [ r EXCEPT !.okS = @ + 1, !.secondSendS = IF second THEN "accepted" ELSE @ ]
                    ELSE [ r EXCEPT !.errS = @ + 1, !.secondSendS = IF second /\ @ = "none" THEN "refused" ELSE @ ]
               [] OTHER -> r)
-  /\ UNCHANGED <<tidx, cfg, wq, ws, tun, bad, now>>
+  /\ UNCHANGED <<tidx, cfg, wq, ws, tun, bad, now, meta>>
 
 TInvoked ==
   /\ Ev.ev = "invoked"
   /\ LET e == Ev
          r == RPof(e.rpc)
      IN rp' = SetRP(e.rpc, [ r EXCEPT !.inv = @ + 1, !.invShape = e.shape, !.invMethod = e.method, !.invMD = e.md ])
-  /\ UNCHANGED <<tidx, cfg, wq, ws, tun, bad, now>>
+  /\ UNCHANGED <<tidx, cfg, wq, ws, tun, bad, now, meta>>
 
 ---------------------------------------------------------------------------
 (* Driver actions and tunnel-level observations.                           *)
+
+AddCause(t, c) == [ t EXCEPT !.causes = @ \cup {c}, !.firstCause = IF @ = "" THEN c ELSE @ ]
 
 \* every RPC in flight at the caller gets a local terminal cause
 AllLocal(cause) ==
@@ -436,7 +446,7 @@ TCtl ==
                          THEN [ ws[s] EXCEPT !.cliEnd = CliEnd(ws[s], "deadline") ] ELSE ws[s] ]
             /\ UNCHANGED tun
        [] e.what \in {"close", "ctxcancel"} ->
-            /\ tun' = [ tun EXCEPT !.causes = @ \cup {e.what} ]
+            /\ tun' = AddCause(tun, e.what)
             /\ ws' = AllLocal("tunnel")
             /\ UNCHANGED <<rp, now>>
        [] e.what = "shutdown" ->
@@ -446,19 +456,21 @@ TCtl ==
             /\ tun' = [ tun EXCEPT !.gstopRet = TRUE ]
             /\ UNCHANGED <<rp, ws, now>>
        [] e.what = "stop" ->
-            /\ tun' = [ tun EXCEPT !.stopCalled = TRUE, !.causes = @ \cup {"stop"} ]
+            /\ tun' = [ AddCause(tun, "stop") EXCEPT !.stopCalled = TRUE ]
             /\ UNCHANGED <<rp, ws, now>>
        [] e.what = "stop.ret" ->
             /\ tun' = [ tun EXCEPT !.stopRet = TRUE ]
             /\ UNCHANGED <<rp, ws, now>>
        [] OTHER -> UNCHANGED <<rp, ws, tun, now>>
-  /\ UNCHANGED <<tidx, cfg, wq, bad>>
+  /\ UNCHANGED <<tidx, cfg, wq, bad, meta>>
 
 TCar ==
   /\ Ev.ev = "car"
-  /\ tun' = IF Ev.what \in {"fail", "ctxdone", "marshalfail"} THEN [ tun EXCEPT !.causes = @ \cup {Ev.what} ] ELSE tun
+  /\ tun' = IF Ev.what \in {"fail", "ctxdone"} THEN AddCause(tun, Ev.what)
+            ELSE IF Ev.what = "marshalfail" THEN [ tun EXCEPT !.marshalFail = TRUE ]
+            ELSE tun
   /\ ws' = IF Ev.what \in {"fail", "ctxdone", "marshalfail"} THEN AllLocal("tunnel") ELSE ws
-  /\ UNCHANGED <<tidx, cfg, wq, rp, bad, now>>
+  /\ UNCHANGED <<tidx, cfg, wq, rp, bad, now, meta>>
 
 TTun ==
   /\ Ev.ev = "tun"
@@ -469,13 +481,13 @@ TTun ==
               [] e.what = "serveret"  -> [ tun EXCEPT !.serveRet = TRUE, !.serveCls = e.cls ]
               [] OTHER -> tun
   /\ ws' = IF Ev.what = "chdone" THEN AllLocal("tunnel") ELSE ws
-  /\ UNCHANGED <<tidx, cfg, wq, rp, bad, now>>
+  /\ UNCHANGED <<tidx, cfg, wq, rp, bad, now, meta>>
 
 TOpen ==
   /\ Ev.ev = "open"
   /\ cfg' = Ev
   /\ tun' = [ tun EXCEPT !.opened = TRUE ]
-  /\ UNCHANGED <<tidx, wq, ws, rp, bad, now>>
+  /\ UNCHANGED <<tidx, wq, ws, rp, bad, now, meta>>
 
 TQuiesce ==
   /\ Ev.ev = "q"
@@ -484,17 +496,32 @@ TQuiesce ==
             g |-> Ev.g, chdone |-> Ev.chdone ]
   /\ tun' = IF tun.baseG = -1 /\ Ev.g >= 0 /\ tun.started /\ DOMAIN rp = {} /\ ~Ev.chdone
             THEN [ tun EXCEPT !.baseG = Ev.g ] ELSE tun
-  /\ UNCHANGED <<tidx, cfg, wq, ws, rp, bad, now>>
+  /\ UNCHANGED <<tidx, cfg, wq, ws, rp, bad, now, meta>>
 
 TReset ==
   /\ Ev.ev = "reset"
   /\ tidx' = Ev.idx
   /\ cfg' = Cfg0 /\ wq' = [c2s |-> <<>>, s2c |-> <<>>]
   /\ ws' = [x \in {} |-> WS0] /\ rp' = [x \in {} |-> RP0] /\ tun' = Tun0 /\ bad' = {} /\ now' = 0
+  /\ meta' = [done |-> <<>>]
+
+TScenario ==
+  /\ Ev.ev = "scenario"
+  /\ meta' = IF "done" \in DOMAIN Ev.meta THEN [done |-> Ev.meta.done] ELSE [done |-> <<>>]
+  /\ UNCHANGED <<tidx, cfg, wq, ws, rp, tun, bad, now>>
+
+TStep ==
+  /\ Ev.ev = "step"
+  /\ tun' = IF Ev.do = "teardown"
+            THEN [ AddCause(tun, "teardown") EXCEPT !.teardown = TRUE, !.lastBlocked = q.blocked,
+                     !.doneAtTeardown = tun.causes = {} /\ ~tun.marshalFail ]
+            ELSE tun
+  /\ ws' = IF Ev.do = "teardown" THEN AllLocal("tunnel") ELSE ws
+  /\ UNCHANGED <<tidx, cfg, wq, rp, bad, now, meta>>
 
 TSkip ==
-  /\ Ev.ev \notin {"wire.send", "wire.recv", "op.start", "op.ret", "invoked", "ctl", "car", "tun", "open", "q", "reset"}
-  /\ UNCHANGED <<tidx, cfg, wq, ws, rp, tun, bad, now>>
+  /\ Ev.ev \notin {"wire.send", "wire.recv", "op.start", "op.ret", "invoked", "ctl", "car", "tun", "open", "q", "reset", "step", "scenario"}
+  /\ UNCHANGED <<tidx, cfg, wq, ws, rp, tun, bad, now, meta>>
 
 ---------------------------------------------------------------------------
 (* The property formulas.  Each is a state predicate over the observation  *)
@@ -562,7 +589,7 @@ BlockedOps == { <<q.blocked[i][1], q.blocked[i][2], q.blocked[i][4]>> : i \in 1.
 \* at a quiescent point a blocked send means the window is exhausted (or, with
 \* a bounded carrier, that the carrier is full)
 C05_BlockedOnlyWhenFull ==
-  q.at => \A b \in BlockedOps :
+  (q.at /\ tun.causes = {} /\ ~tun.marshalFail) => \A b \in BlockedOps :
      (b[3] = "send" /\ b[2] \in RPCs /\ rp[b[2]].sid \in Sids) =>
         LET s == rp[b[2]].sid IN
         IF b[1] = "c"
@@ -588,6 +615,141 @@ TunnelCause == tun.causes # {}
 C03_TunnelSurvives ==
   (RealCli /\ RealSrv) => ((tun.chdone \/ tun.serveRet \/ tun.startFail) => TunnelCause)
 
+\* ---- C02 -------------------------------------------------------------------
+ResMatchesClose(res, c) ==
+  \/ c.code = 0 /\ res.cls = "eof"
+  \/ c.code # 0 /\ res.cls = "err" /\ res.code = c.code /\ res.msg = c.msg /\ res.det = c.det
+
+C02_ResultOnce == \A r \in RPCs : ~rp[r].cResMismatch
+
+\* the close frame carries what the handler returned (status and trailers), or
+\* what a server-local cause explains (cancel delivered, rejection)
+C02_CloseCarriesHandlerStatus ==
+  \A s \in Sids : (RealSrv /\ RealCli /\ ws[s].sClose >= 1 /\ ws[s].rpc \in RPCs) =>
+     LET c == ws[s].close
+         R == rp[ws[s].rpc]
+     IN \/ /\ R.hRetStarted /\ c.code = R.hRet.code /\ c.msg = R.hRet.msg /\ c.det = R.hRet.det
+           /\ MDEq(c.md, R.hRet.md)
+        \/ ws[s].cancelDeliv   \* the caller has finished already and discards this frame
+        \/ R.inv = 0 /\ c.code \in {3, 12, 14}
+        \/ R.hRetStarted /\ R.hRet.code = 0 /\ R.shape = "unary" /\ c.code \in {1, 4}
+        \/ tun.causes # {}
+
+\* a caller that finished because the close frame arrived sees exactly its status
+C02_StatusExact ==
+  \A r \in RPCs : (RealSrv /\ rp[r].cRes.cls # "none" /\ rp[r].sid \in Sids /\ ~cfg.auto) =>
+     (ws[rp[r].sid].cliEnd = "close" => ResMatchesClose(rp[r].cRes, ws[rp[r].sid].close))
+
+\* ... and its trailers, as soon as the terminal result has been returned
+C02_TrailersAtTerminal ==
+  \A r \in RPCs : (RealSrv /\ rp[r].trlSeen /\ rp[r].sid \in Sids /\ ~cfg.auto /\ ws[rp[r].sid].cliEnd = "close") =>
+     /\ MDEq(rp[r].trl, ws[rp[r].sid].close.md)
+     /\ rp[r].hasTrlT => MDEq(rp[r].trlT, ws[rp[r].sid].close.md)
+
+\* the header frame carries exactly what the handler set before it was sent;
+\* the caller reads exactly the delivered header frame
+C02_HeadersExact ==
+  /\ \A s \in Sids : (RealSrv /\ ws[s].sHdr >= 1 /\ ws[s].rpc \in RPCs) => MDEq(ws[s].sHdrMD, rp[ws[s].rpc].hHdr)
+  /\ \A r \in RPCs : ~rp[r].hdrBad /\ ~rp[r].hdrMismatch /\ ~rp[r].hdrTBad
+C02_HeadersByFirstMsg ==
+  /\ \A r \in RPCs : ~rp[r].hdrLate
+  /\ q.at => \A b \in BlockedOps : (b[3] = "header" /\ b[2] \in RPCs /\ rp[b[2]].sid \in Sids) => ~ws[rp[b[2]].sid].hdrDeliv
+C02_RequestMD == \A r \in RPCs : (rp[r].inv > 0 /\ rp[r].cstart /\ RealCli) => MDEq(rp[r].invMD, rp[r].mdSent)
+
+\* ---- C07 -------------------------------------------------------------------
+\* a terminal result is the handler's (via the close frame) or one that a local
+\* cause explains; never anything else
+LocalOK(r, res) ==
+  \/ 1 \in rp[r].localCause /\ res.cls = "err" /\ res.code = 1
+  \/ 4 \in rp[r].localCause /\ res.cls = "err" /\ res.code = 4
+  \/ rp[r].sid \in Sids /\ ws[rp[r].sid].cliEnd = "tunnel" /\ res.cls = "err"
+  \/ (tun.causes # {} \/ tun.marshalFail \/ tun.chdone) /\ res.cls = "err"
+C07_OneLegalOutcome ==
+  \A r \in RPCs : (RealSrv /\ rp[r].cRes.cls # "none") =>
+     \/ rp[r].sid \in Sids /\ ws[rp[r].sid].closeDeliv /\ ResMatchesClose(rp[r].cRes, ws[rp[r].sid].close)
+     \/ LocalOK(r, rp[r].cRes)
+\* cancelled / expired at the caller: no caller op of that RPC stays blocked
+C07_CallerEndsAlone ==
+  q.at => \A b \in BlockedOps : (b[1] = "c" /\ b[2] \in RPCs) => rp[b[2]].localCause = {}
+\* once the cancel notice was delivered the handler's context is done and none
+\* of its ops stays blocked
+HandlerCtxDone(r) == \E i \in 1..Len(q.h) : q.h[i][1] = r /\ q.h[i][2] = 1
+HandlerLive(r) == \E i \in 1..Len(q.h) : q.h[i][1] = r
+C07_HandlerReleased ==
+  (q.at /\ q.parked = <<>>) => \A s \in Sids : (ws[s].cancelDeliv /\ ws[s].rpc # 0) =>
+     /\ HandlerLive(ws[s].rpc) => HandlerCtxDone(ws[s].rpc)
+     /\ \A b \in BlockedOps : ~(b[1] = "s" /\ b[2] = ws[s].rpc)
+
+\* ---- C04 -------------------------------------------------------------------
+RealCause == tun.causes \cap {"close", "ctxcancel", "fail", "ctxdone", "stop", "teardown"} # {}
+QuietWire == q.qc2s = 0 /\ q.qs2c = 0
+C04_CallsEnd == (q.at /\ q.chdone) => \A b \in BlockedOps : b[1] # "c"
+C04_HandlersReleased ==
+  (q.at /\ tun.serveRet /\ q.parked = <<>>) =>
+     /\ \A i \in 1..Len(q.h) : q.h[i][2] = 1
+     /\ \A b \in BlockedOps : b[1] # "s"
+C04_ClientObserves == (q.at /\ RealCause /\ QuietWire /\ tun.opened /\ RealCli /\ q.parked = <<>>) => (q.chdone \/ tun.startFail)
+C04_ServerObserves == (q.at /\ RealCause /\ QuietWire /\ tun.opened /\ RealSrv /\ q.parked = <<>>) => tun.serveRet
+C04_ErrNilIffClean ==
+  (tun.chdone /\ tun.firstCause # "" /\ RealSrv) => ((tun.chErr = "ok") <=> (tun.firstCause \in {"close", "stop"}))
+C04_FailFast == \A r \in RPCs : ~rp[r].failFastBad
+
+\* ---- C03 -------------------------------------------------------------------
+\* RPCs the generator expects to complete (their peers keep reading, no fault of
+\* their own, no tunnel-level cause) have completed when the run is drained
+DoneSet == { meta.done[i] : i \in 1..Len(meta.done) }
+C03_BystandersComplete ==
+  (tun.teardown /\ tun.doneAtTeardown) =>
+     \A r \in DoneSet :
+        /\ \A i \in 1..Len(tun.lastBlocked) : tun.lastBlocked[i][2] # r
+        /\ r \in RPCs /\ rp[r].cRes.cls # "none"
+
+\* ---- C14 -------------------------------------------------------------------
+CliLive == { s \in Sids : ws[s].news > 0 /\ ws[s].cliEnd = "" }
+SrvLive == { r \in RPCs : rp[r].inv > 0 /\ ~rp[r].hRetStarted /\ ~(rp[r].sid \in Sids /\ (ws[rp[r].sid].cancelDeliv \/ ws[rp[r].sid].sViolD)) }
+SrvMaybe == { r \in RPCs : rp[r].inv > 0 /\ rp[r].hRetStarted /\ rp[r].shape = "unary"
+                           /\ rp[r].sid \in Sids /\ ws[rp[r].sid].sClose = 0 /\ ~ws[rp[r].sid].cancelDeliv }
+C14_ClientTableExact ==
+  (q.at /\ q.ctab >= 0 /\ q.parked = <<>> /\ RealSrv /\ cfg.cap = 0) =>
+     q.ctab = (IF q.chdone THEN 0 ELSE Cardinality(CliLive))
+C14_ServerTableExact ==
+  (q.at /\ q.parked = <<>> /\ RealCli /\ cfg.cap = 0) =>
+     IF q.nsrv = 0 THEN q.stab = 0
+     ELSE Cardinality(SrvLive) <= q.stab /\ q.stab <= Cardinality(SrvLive) + Cardinality(SrvMaybe)
+C14_GoroutinesBaseline ==
+  (q.at /\ q.g >= 0 /\ tun.baseG >= 0 /\ q.ctab = 0 /\ q.stab = 0 /\ q.h = <<>> /\ q.blocked = <<>>
+        /\ QuietWire /\ ~q.chdone /\ q.parked = <<>> /\ tun.causes = {} /\ ~tun.marshalFail) => q.g = tun.baseG
+C14_NothingAfterTunnel ==
+  (q.at /\ q.final) => q.g = 0 /\ q.ctab <= 0 /\ q.stab = 0 /\ q.nsrv = 0
+
+\* ---- C10 -------------------------------------------------------------------
+C10_RefusedAfterShutdown ==
+  \A s \in Sids : (ws[s].newAfterShutdown /\ RealSrv) =>
+     /\ ws[s].rpc \in RPCs => rp[ws[s].rpc].inv = 0
+     /\ ws[s].sClose >= 1 => ws[s].close.code = 14
+C10_GracefulStopReturns ==
+  (q.at /\ tun.shutdown /\ cfg.dir = "rev" /\ q.h = <<>> /\ q.stab = 0 /\ QuietWire /\ q.blocked = <<>> /\ RealSrv)
+     => tun.gstopRet
+C10_StopMeansStopped ==
+  (q.at /\ tun.stopRet) => (tun.serveRet /\ \A i \in 1..Len(q.h) : q.h[i][2] = 1)
+
+\* ---- C16 -------------------------------------------------------------------
+C16_SecondSendRefused ==
+  /\ \A r \in RPCs : rp[r].secondSendC # "accepted" /\ rp[r].secondSendS # "accepted"
+  /\ \A s \in Sids : (ws[s].rpc \in RPCs) =>
+        /\ (RealCli /\ rp[ws[s].rpc].shape \in {"unary", "sstream"}) => Len(ws[s].cEnv) <= 1
+        /\ (RealSrv /\ rp[ws[s].rpc].invShape \in {"unary", "cstream"}) => Len(ws[s].sEnv) <= 1
+C16_OneRequestOnly == \A r \in RPCs : rp[r].invShape \in {"unary", "sstream"} => Len(rp[r].gotS) <= 1
+C16_NoSuccessOnWrongCount ==
+  \A r \in RPCs : (rp[r].shape \in {"unary", "cstream"} /\ Len(rp[r].gotC) >= 1 /\ rp[r].sid \in Sids) =>
+     LET w == ws[rp[r].sid] IN w.sMsgsD = 1 /\ w.closeDeliv /\ w.close.code = 0
+
+\* ---- C08 (completion) -----------------------------------------------------
+C08_ExactlyOneWhenCompleted ==
+  \A r \in RPCs : (RealSrv /\ RealCli /\ rp[r].cRes.cls # "none" /\ rp[r].sid \in Sids /\ ws[rp[r].sid].cliEnd = "close") =>
+     \/ rp[r].inv = 1
+     \/ rp[r].inv = 0 /\ ws[rp[r].sid].close.code \in {3, 12, 14}
+
 ---------------------------------------------------------------------------
 Formulas == [
   C01_SrvPrefix |-> C01_SrvPrefix, C01_CliPrefix |-> C01_CliPrefix, C01_Intact |-> C01_Intact,
@@ -602,21 +764,44 @@ Formulas == [
   C08_IdsIncreasing |-> C08_IdsIncreasing, C08_NewFirst |-> C08_NewFirst,
   C08_AtMostOneInvocation |-> C08_AtMostOneInvocation, C08_RightHandler |-> C08_RightHandler,
   C11_Revision |-> C11_Revision, C11_LegacyClean |-> C11_LegacyClean,
-  C03_TunnelSurvives |-> C03_TunnelSurvives
+  C03_TunnelSurvives |-> C03_TunnelSurvives, C03_BystandersComplete |-> C03_BystandersComplete,
+  C02_ResultOnce |-> C02_ResultOnce, C02_CloseCarriesHandlerStatus |-> C02_CloseCarriesHandlerStatus,
+  C02_StatusExact |-> C02_StatusExact, C02_TrailersAtTerminal |-> C02_TrailersAtTerminal,
+  C02_HeadersExact |-> C02_HeadersExact, C02_HeadersByFirstMsg |-> C02_HeadersByFirstMsg,
+  C02_RequestMD |-> C02_RequestMD,
+  C07_OneLegalOutcome |-> C07_OneLegalOutcome, C07_CallerEndsAlone |-> C07_CallerEndsAlone,
+  C07_HandlerReleased |-> C07_HandlerReleased,
+  C04_CallsEnd |-> C04_CallsEnd, C04_HandlersReleased |-> C04_HandlersReleased,
+  C04_ClientObserves |-> C04_ClientObserves, C04_ServerObserves |-> C04_ServerObserves,
+  C04_ErrNilIffClean |-> C04_ErrNilIffClean, C04_FailFast |-> C04_FailFast,
+  C14_ClientTableExact |-> C14_ClientTableExact, C14_ServerTableExact |-> C14_ServerTableExact,
+  C14_GoroutinesBaseline |-> C14_GoroutinesBaseline, C14_NothingAfterTunnel |-> C14_NothingAfterTunnel,
+  C10_RefusedAfterShutdown |-> C10_RefusedAfterShutdown, C10_GracefulStopReturns |-> C10_GracefulStopReturns,
+  C10_StopMeansStopped |-> C10_StopMeansStopped,
+  C16_SecondSendRefused |-> C16_SecondSendRefused, C16_OneRequestOnly |-> C16_OneRequestOnly,
+  C16_NoSuccessOnWrongCount |-> C16_NoSuccessOnWrongCount,
+  C08_ExactlyOneWhenCompleted |-> C08_ExactlyOneWhenCompleted
 ]
 
-Violated == { n \in DOMAIN Formulas : ~Formulas[n] }
+Violated == LET F == Formulas IN { n \in DOMAIN F : ~F[n] }
 
 \* record the first position per trace and formula
-Judge ==
-  viol' = viol \cup { <<tidx, n, l - 1>> : n \in { m \in Violated : ~\E v \in viol : v[1] = tidx /\ v[2] = m } }
+\* classification of the violating history (the signature used by the list of
+\* known findings): formula-specific, "" by default
+Detail(n) ==
+  CASE n = "C03_TunnelSurvives" -> IF tun.marshalFail THEN "unencodable-metadata" ELSE ""
+    [] n = "C10_GracefulStopReturns" -> IF q.nsrv > 0 /\ q.stab = 0 THEN "idle-tunnel" ELSE ""
+    [] OTHER -> ""
+
+NewViol == LET V == Violated IN
+           { <<tidx, n, l - 1, Detail(n)>> : n \in { m \in V : ~\E v \in viol : v[1] = tidx /\ v[2] = m } }
+Judge == viol' = viol \cup NewViol
 
 ---------------------------------------------------------------------------
 TEnd ==
   /\ Ev.ev = "end"
-  /\ JsonSerialize(OutFile, [ violations |-> SetToSeq(viol \cup { <<tidx, n, l - 1>> : n \in { m \in Violated : ~\E v \in viol : v[1] = tidx /\ v[2] = m } }),
-                              lines |-> l ])
-  /\ UNCHANGED <<tidx, cfg, wq, ws, rp, tun, bad, now, q, viol>>
+  /\ JsonSerialize(OutFile, [ violations |-> SetToSeq(viol \cup NewViol), lines |-> l ])
+  /\ UNCHANGED <<tidx, cfg, wq, ws, rp, tun, bad, now, q, viol, meta>>
 
 Next ==
   /\ l <= Len(Trace)
@@ -628,6 +813,8 @@ Next ==
         /\ \/ TWireSend \/ TWireRecv \/ TOpStart \/ TOpRet \/ TInvoked \/ TCtl \/ TCar \/ TTun \/ TOpen
            \/ TQuiesce
            \/ TReset
+           \/ TStep
+           \/ TScenario
            \/ TSkip
 
 Spec == Init /\ [][Next]_vars
